@@ -29,6 +29,22 @@ Proved here (for every composition graph, every history, every injective renamin
   (`C04_unpinned_counterexample`, the seeded change C04-m2);
 * `C04_listed_complete` — at every micro-step of a commit (= after a crash anywhere) every listed generation has all
   the states its tag lists; publishing the tag first breaks this (`C04_tag_first_counterexample`, seeded change C04-m3);
+* `C04_copy_mech_persistent`, `C04_perftrack_mech_as_apply`, `C04_binding_mech` — the same with the copy produced the
+  way `Traversal.copy` produces it (Model/PersistTraverse.lean: mapper paths depth first, subscriptions between the
+  members of each path re-created once, an output port is an ordered set), under the decidable hypothesis that the
+  copy is faithful on the graph (`Comp.copyFaithful`, evaluated on every explored real graph);
+  `C04_copy_lifo_counterexample`: with the paths enumerated from an explicit LIFO stack (seeded change C04-m1) the
+  two stateful branches of a fan-out swap their states in `eval_perftrack`;
+* `C04_traversal_complete` — `Comp.visit` lists exactly the reachable nodes, each once;
+* `C04_commit_atomic` — a commit is atomic for the readers: after any proper prefix of its micro-steps the registry
+  reads exactly as before, after all of them as before plus exactly the committed generation;
+  `C04_binding_faulty`, `C04_registry_invariant_faulty` — binding and registry invariant for histories in which any
+  training may die at any micro-step of its commit and any other action may be overtaken by a committing re-training
+  of another process;
+* `C04_expansion_wellformed`, `C04_binding_expr`, `C04_binding_expr_faulty` — for every pipeline expression over
+  `wrap.Operator`s (mappers, apply-only / train-only / label builders, stateful or not), `>>` and two-branch fan-outs
+  the composition graph (expanded in the model, `compOf`) is well-formed, hence binding holds for these pipelines
+  with no hypothesis left, in all four modes, also under faults;
 * `C04_binding_counterexample` — without well-formedness the statement is false: the witness is the composition of
   `m1 >> m2 >> PerfTrackScore` as forml built it *before* the repair fixes/C04-subscription-del.diff (the dangling
   head `Future`s of the pipeline's train/label segments died, `Subscription.__del__` un-registered the first
@@ -38,6 +54,9 @@ import ForML.Lemmas.C04Modes
 import ForML.Lemmas.C04Copy
 import ForML.Lemmas.C04PerfWf
 import ForML.Lemmas.C04Commit
+import ForML.Lemmas.C04Mech
+import ForML.Lemmas.C04Crash
+import ForML.Lemmas.C04ExprWf
 
 namespace ForML.Persist
 
@@ -254,6 +273,13 @@ theorem C04_traversal_total (c : Comp) (head tail extra : Nat) :
     c.dfs tail (c.fuel + extra) [head] [] = c.visit head tail :=
   Comp.visit_fuel c head tail extra
 
+/-- `Comp.visit` is exactly the pre-order of what `Traversal.each` can reach: no node is listed twice, and a node is
+listed iff it is reachable from the head over the subscriptions `each` follows (all of them, at the tail only the
+trained subscribers). -/
+theorem C04_traversal_complete (c : Comp) (head tail : Nat) :
+    (c.visit head tail).Nodup ∧ ∀ v, v ∈ c.visit head tail ↔ Comp.Reach c tail head v :=
+  Comp.visit_spec c head tail
+
 /-! ### perftrack, derived from the plain composition -/
 
 /-- `Composition.persistent` of `pipeline >> PerfTrackScore` (computed on the forked copy of the apply segment) is
@@ -304,6 +330,147 @@ example : FreshFor (· + 100) chain2 :=
     have := this v hv
     show u + 100 ≠ v
     omega⟩
+
+/-! ### the copy as `Traversal.copy` produces it -/
+
+/-- `Composition.persistent` of the evaluation's composition, with the copy of the apply segment produced the way
+`Traversal.copy` produces it (mapper paths depth first, the subscriptions between the members of each path re-created
+once, per output port in creation order): the persistent list of the plain composition — provided the copy is
+*faithful* on this graph (`Comp.copyFaithful`, decidable: every visited worker is forked and its fork publishes to
+the forks of its subscribers in the original order). -/
+theorem C04_copy_mech_persistent (c : Comp) (ρ : Nat → Nat) (pe : List PEdge) (m : Comp) (hf : FreshFor ρ c)
+    (htail : c.tailClean = true) (hdist : c.uidsDistinct = true) (hnt : c.noTrainer c.applyHead c.applyTail = true)
+    (hcf : c.copyFaithful pe = true) (hm : c.copiedMech ρ pe = .ok m) :
+    m.persistent = c.persistent ∧ m.persistentTags = c.persistentTags := by
+  obtain ⟨paths, hp, rfl⟩ := Comp.copiedMech_ok hm
+  have hE := Comp.copyFaithful_spec hp hcf
+  exact ⟨Comp.persistent_withCopy hf htail hdist hnt hE, Comp.persistentTags_withCopy hf htail hdist hnt hE⟩
+
+/-- `eval_perftrack` on that composition hands every stateful worker exactly what batch apply hands it (or is
+refused: no sink and a branching apply segment, a cyclic graph). -/
+theorem C04_perftrack_mech_as_apply (c : Comp) (ρ : Nat → Nat) (pe : List PEdge) (hf : FreshFor ρ c)
+    (htail : c.tailClean = true) (hdist : c.uidsDistinct = true) (hnt : c.noTrainer c.applyHead c.applyTail = true)
+    (hcf : c.copyFaithful pe = true) (reg : Registry) (closed : Bool) (gen : Option Nat) (run hp : Nat) :
+    step ⟨c, c.perfMech ρ closed pe⟩ reg ⟨.perftrack, gen, run, hp⟩ =
+      match c.perfMech ρ closed pe with
+      | .error e => .error e
+      | .ok _ => step ⟨c, c.perfMech ρ closed pe⟩ reg ⟨.apply, gen, run, hp⟩ := by
+  cases hm : c.perfMech ρ closed pe with
+  | error e => simp only [step]
+  | ok m =>
+    have hm' : c.copiedMech ρ pe = .ok m := by
+      simp only [Comp.perfMech] at hm
+      split at hm
+      · exact hm
+      · cases hm
+    obtain ⟨paths, hp', rfl⟩ := Comp.copiedMech_ok hm'
+    have hE := Comp.copyFaithful_spec hp' hcf
+    simp only [step]
+    show runSegment (c.withCopy ρ _ _) c.applyHead c.applyTail reg ⟨.perftrack, gen, run, hp⟩ = _
+    rw [runSegment_withCopy hf htail hdist hnt hE]
+    simp only [runSegment]
+
+/-- **Binding with the mechanical copy**: hypotheses on the plain composition only (well-formed, no trainer off the
+apply tail, `Traversal.copy` faithful on it). -/
+theorem C04_binding_mech (c : Comp) (ρ : Nat → Nat) (closed : Bool) (pe : List PEdge) (hf : FreshFor ρ c)
+    (hwf : c.wfPlain = true) (htail : c.tailClean = true) (hcf : c.copyFaithful pe = true)
+    (hist : List (Action × Fresh)) (hfresh : FreshOk hist) : HistoryOk ⟨c, c.perfMech ρ closed pe⟩ hist :=
+  C04_binding_partial ⟨c, c.perfMech ρ closed pe⟩
+    (by simp only [Case.wf, hwf, wfPerf_perfMech closed pe hf hwf htail hcf, Bool.and_self]) hist hfresh
+
+/-- `flow.Composition(source, Parallel(m1, m2), sink)` — two parallel stateful branches merged by one worker — as
+extracted from forml (canonical ids): 0 source(apply) → {1 m1, 4 m2} → 2 merger → 3 sink;  5 source(train) → 6 label
+extractor → {7 trainer of m1, 8 m1 (train path), 11 trainer of m2, 12 m2 (train path)}, 8 → 9 merger ← 12, 9 → 10 sink;
+13..15 prototype workers. -/
+def fan2 : Comp where
+  nodes := [⟨0, 0, 0, false, false⟩, ⟨1, 1, 1, true, false⟩, ⟨2, 2, 3, false, false⟩, ⟨3, 3, 0, false, false⟩,
+    ⟨4, 4, 2, true, false⟩, ⟨5, 5, 0, false, false⟩, ⟨6, 6, 0, false, false⟩, ⟨7, 1, 1, true, true⟩,
+    ⟨8, 1, 1, true, false⟩, ⟨9, 2, 3, false, false⟩, ⟨10, 3, 0, false, false⟩, ⟨11, 4, 2, true, true⟩,
+    ⟨12, 4, 2, true, false⟩, ⟨13, 1, 1, true, false⟩, ⟨14, 3, 0, false, false⟩, ⟨15, 4, 2, true, false⟩]
+  edges := [(0, 1), (0, 4), (1, 2), (2, 3), (4, 2), (5, 6), (6, 7), (6, 8), (6, 11), (6, 12), (6, 7), (6, 11), (8, 9),
+    (9, 10), (12, 9)]
+  applyHead := 0
+  applyTail := 3
+  trainHead := 5
+  trainTail := 10
+
+/-- its subscriptions with ports -/
+def fan2Ports : List PEdge :=
+  [⟨0, 1, 0, 0⟩, ⟨0, 4, 0, 0⟩, ⟨1, 2, 0, 0⟩, ⟨2, 3, 0, 0⟩, ⟨4, 2, 0, 1⟩, ⟨5, 6, 0, 0⟩, ⟨6, 7, 0, 1000⟩, ⟨6, 8, 0, 0⟩,
+    ⟨6, 11, 0, 1000⟩, ⟨6, 12, 0, 0⟩, ⟨6, 7, 1, 1001⟩, ⟨6, 11, 1, 1001⟩, ⟨8, 9, 0, 0⟩, ⟨9, 10, 0, 0⟩, ⟨12, 9, 0, 1⟩]
+
+/-- non-vacuity: the hypotheses hold for the fan-out; the mechanical copy walks two paths and persists the two
+occurrences in the order of the plain composition -/
+example : fan2.portsOk fan2Ports = true ∧ fan2.wfPlain = true ∧ fan2.tailClean = true
+    ∧ fan2.copyFaithful fan2Ports = true := by decide
+example : fan2.mpaths.toOption = some [[3, 2, 1, 0], [3, 2, 4, 0]] := by decide
+example : fan2.persistentTags = [some 1, some 2] := by decide
+example : ((fan2.copiedMech (· + 100) fan2Ports).toOption.map Comp.persistentTags) = some [some 1, some 2] := by decide
+example : FreshFor (· + 100) fan2 :=
+  ⟨fun a b h => by simpa using h, fun u v hv => by
+    have : ∀ w ∈ fan2.uids, w < 100 := by decide
+    have := this v hv
+    show u + 100 ≠ v
+    omega⟩
+
+/-- the evaluation's composition of the fan-out with the path enumeration of the seeded change C04-m1 (explicit LIFO
+stack): the copy registers the subscribers of the source in reversed order -/
+def fan2Lifo : Case := ⟨fan2, fan2.copiedLifo (· + 100) fan2Ports⟩
+
+example : fan2.mpathsLifo.toOption = some [[3, 2, 4, 0], [3, 2, 1, 0]] := by decide
+example : ((fan2.copiedLifo (· + 100) fan2Ports).toOption.map Comp.persistentTags) = some [some 2, some 1] := by decide
+
+/-- With the LIFO enumeration the persistent list of the evaluation's composition is ordered differently from the
+list the training run committed with: `eval_perftrack` hands `m1` the state of `m2` and vice versa. -/
+theorem C04_copy_lifo_counterexample :
+    outcomes (runHistory fan2Lifo [] trainThenPerftrack) =
+      [some [.trained 1 3 none, .applied 1 3 (some ⟨1, 0, 3, none⟩), .trained 2 3 none, .applied 2 3 (some ⟨2, 0, 3, none⟩)],
+       some [.applied 1 5 (some ⟨2, 0, 3, none⟩), .applied 2 5 (some ⟨1, 0, 3, none⟩)]]
+    ∧ anyBad (runHistory fan2Lifo [] trainThenPerftrack) = true := by decide
+
+/-! ### from the expression: every expansion is well-formed -/
+
+/-- **Every expansion is well-formed.** The composition graph of every pipeline expression over `wrap.Operator`s
+(mapper, apply-only, train-only and label builders, stateful or stateless), `>>` and two-branch fan-outs merged by one
+worker (`compOf`, Model/PersistExpr.lean — compared by the check with the graph extracted from the real expansion on
+every generated pipeline of this grammar), with or without a sink, satisfies `Comp.wfPlain` and `Comp.tailClean`: one builder per group, distinct uids, only stateful workers
+trained, a trainer of every persistent group visited on the train segment, every applied stateful worker derived,
+no trainer on the apply segment or off its tail. -/
+theorem C04_expansion_wellformed (e : PExpr) (sink : Bool) :
+    (compOf e sink).wfPlain = true ∧ (compOf e sink).tailClean = true :=
+  ⟨wfPlain_compOf e sink, tailClean_compOf e sink⟩
+
+/-- **Binding for every such pipeline — no hypothesis left**: every expression, every history of lifecycle actions on
+fresh expansions (any injective renamings of node and group ids), all four modes. -/
+theorem C04_binding_expr (e : PExpr) (sink closed : Bool) (hist : List (Action × Fresh)) (hfresh : FreshOk hist) :
+    HistoryOk ⟨compOf e sink, (compOf e sink).perfOf (· + (compOf e sink).bound) closed⟩ hist :=
+  C04_binding_derived (compOf e sink) _ closed (Comp.freshFor_bound _) (wfPlain_compOf e sink)
+    (tailClean_compOf e sink) hist hfresh
+
+/-- non-vacuity: an operator with three different stateful builders (label 1, apply 2, train 3) followed by a mapper 4:
+the apply-only actor 2 and the mapper 4 are persisted (the train-only and the label actor are not: they are never
+applied in apply mode), batch apply hands both their own states -/
+def wrapExpr : PExpr := .seq (.seq (.seq (.labelOp 1 true) (.applyOnly 2 true)) (.trainOnly 3 true)) (.mapper 4 true)
+
+example : (compOf wrapExpr false).persistentTags = [some 2, some 4] := by decide
+example : (outcomes (runHistory ⟨compOf wrapExpr false, (compOf wrapExpr false).perfOf (· + 1000) false⟩ []
+      [(⟨.train, none, 0, 3⟩, idFresh), (⟨.apply, none, 1, 5⟩, idFresh)])).getLast? =
+    some (some [.applied 2 5 (some ⟨2, 0, 3, none⟩), .applied 4 5 (some ⟨4, 0, 3, none⟩)]) := by decide
+
+/-- non-vacuity: `m1 >> Parallel(m2 >> m3, m4) >> m5` with a sink persists its five stateful occurrences in the
+depth-first order of the apply segment (the merger's successor `m5` before the second branch), and a train / perftrack
+history hands every one of them its own state -/
+def fanExpr : PExpr :=
+  .seq (.seq (.mapper 1 true) (.par (.seq (.mapper 2 true) (.mapper 3 true)) (.mapper 4 true) 6)) (.mapper 5 true)
+
+example : (compOf fanExpr true).persistentTags = [some 1, some 2, some 3, some 5, some 4] := by decide
+example : outcomes (runHistory ⟨compOf fanExpr true, (compOf fanExpr true).perfOf (· + 1000) true⟩ []
+      [(⟨.train, none, 0, 3⟩, idFresh), (⟨.perftrack, none, 1, 5⟩, idFresh)]) =
+    [some [.trained 1 3 none, .applied 1 3 (some ⟨1, 0, 3, none⟩), .trained 2 3 none, .applied 2 3 (some ⟨2, 0, 3, none⟩),
+           .trained 3 3 none, .applied 3 3 (some ⟨3, 0, 3, none⟩), .trained 5 3 none, .applied 5 3 (some ⟨5, 0, 3, none⟩),
+           .trained 4 3 none, .applied 4 3 (some ⟨4, 0, 3, none⟩)],
+     some [.applied 1 5 (some ⟨1, 0, 3, none⟩), .applied 2 5 (some ⟨2, 0, 3, none⟩), .applied 3 5 (some ⟨3, 0, 3, none⟩),
+           .applied 5 5 (some ⟨5, 0, 3, none⟩), .applied 4 5 (some ⟨4, 0, 3, none⟩)]] := by decide
 
 /-! ### one action reads one generation -/
 
@@ -367,9 +534,69 @@ theorem C04_tag_first_counterexample :
     (runOps ⟨[], []⟩ ((tagFirstOps 1 0 [(11, ⟨1, 0, 0, none⟩), (12, ⟨2, 0, 0, none⟩)]).take 6)).ok = false := by
   decide
 
+/-- **A commit is atomic for the readers.** Whatever prefix of its micro-steps a training run completes before it
+dies, the registry reads either exactly as before (any proper prefix) or as before plus exactly the committed
+generation with exactly the states of that run (all micro-steps) — never a generation with a state missing,
+replaced or out of position. -/
+theorem C04_commit_atomic (reg : Registry) (g : Generation) (n : Nat) :
+    (n < (commitOps reg g).length → crashedCommit reg g n = reg) ∧
+    ((commitOps reg g).length ≤ n → crashedCommit reg g n = reg ++ [g]) :=
+  ⟨crashedCommit_crashed reg g n, crashedCommit_complete reg g n⟩
+
 /-- non-vacuity: a complete commit is listed with both states, a crashed one is not listed at all -/
 example : crashedCommit [] ⟨0, [⟨1, 0, 0, none⟩, ⟨2, 0, 0, none⟩]⟩ 7 = [⟨0, [⟨1, 0, 0, none⟩, ⟨2, 0, 0, none⟩]⟩] := by
   decide
 example : crashedCommit [] ⟨0, [⟨1, 0, 0, none⟩, ⟨2, 0, 0, none⟩]⟩ 6 = [] := by decide
+example : (commitOps [] ⟨0, [⟨1, 0, 0, none⟩, ⟨2, 0, 0, none⟩]⟩).length = 7 := by decide
+
+/-! ### histories with crashes inside commits and re-trainings racing with loads -/
+
+/-- every observation of every successful action of a history with faults satisfies the property (judged against the
+registry the action started from: its loads are pinned, `C04_generation_pinned`) -/
+def FaultyHistoryOk (cs : Case) (hist : List (Action × Fresh × Fault)) : Prop :=
+  ∀ entry ∈ runFaulty cs [] hist, ∀ obs, entry.2.2 = .ok obs → ∀ o ∈ obs, obsOk entry.2.1 entry.1 o = true
+
+/-- **Binding under faults.** On a well-formed case, for every history in which any training run may die after any
+number of micro-steps of its commit and any other action may be overtaken by a re-training of another process that
+commits a new generation after the action's first state load: every stateful actor applied while generation `k` is
+loaded holds the state its own occurrence produced in the run that committed `k`, re-training starts from exactly
+that state, hyper-parameters are the action's. -/
+theorem C04_binding_faulty (cs : Case) (hwf : cs.wf = true) (hist : List (Action × Fresh × Fault))
+    (hfresh : FaultyFreshOk hist) : FaultyHistoryOk cs hist := by
+  intro entry he obs hobs o ho
+  exact (runFaulty_ok cs hwf hist [] (RegInv.nil _) hfresh entry he).2 obs hobs o ho
+
+/-- ... and every generation listed at any point of such a history holds, position by position, the states of the
+occurrences behind `Composition.persistent`, all of the run that committed it: a crashed commit leaves nothing
+half-listed behind (so `C04_load_total` applies: no later load answers "no state"). -/
+theorem C04_registry_invariant_faulty (cs : Case) (hwf : cs.wf = true) (hist : List (Action × Fresh × Fault))
+    (hfresh : FaultyFreshOk hist) :
+    ∀ entry ∈ runFaulty cs [] hist, ∀ g ∈ entry.2.1,
+      g.states.map (fun s => some s.tag) = cs.plain.persistentTags ∧ ∀ s ∈ g.states, s.run = g.run := by
+  intro entry he g hg
+  exact (runFaulty_ok cs hwf hist [] (RegInv.nil _) hfresh entry he).1 g hg
+
+/-- non-vacuity: train; a re-training that dies right before publishing its tag; apply overtaken by another
+re-training; apply of the latest generation.  Generation 2 is the racing run's (run 9), not the crashed one's. -/
+def faultyWitness : List (Action × Fresh × Fault) :=
+  [(⟨.train, none, 0, 3⟩, idFresh, ⟨none, none⟩), (⟨.train, none, 1, 4⟩, idFresh, ⟨some 6, none⟩),
+   (⟨.apply, none, 2, 5⟩, idFresh, ⟨none, some (9, 7, idFresh)⟩), (⟨.apply, none, 3, 6⟩, idFresh, ⟨none, none⟩)]
+
+example : outcomes (runFaulty chain2Case [] faultyWitness) =
+    [some [.trained 1 3 none, .applied 1 3 (some ⟨1, 0, 3, none⟩), .trained 2 3 none, .applied 2 3 (some ⟨2, 0, 3, none⟩)],
+     some [.trained 1 4 (some ⟨1, 0, 3, none⟩), .applied 1 4 (some ⟨1, 1, 4, some (1, 0)⟩),
+           .trained 2 4 (some ⟨2, 0, 3, none⟩), .applied 2 4 (some ⟨2, 1, 4, some (2, 0)⟩)],
+     some [.applied 1 5 (some ⟨1, 0, 3, none⟩), .applied 2 5 (some ⟨2, 0, 3, none⟩)],
+     some [.applied 1 6 (some ⟨1, 9, 7, some (1, 0)⟩), .applied 2 6 (some ⟨2, 9, 7, some (2, 0)⟩)]] := by decide
+
+/-- ... and under faults: trainings that die at any micro-step of their commit, re-trainings of other processes
+committing between the loads of an action. -/
+theorem C04_binding_expr_faulty (e : PExpr) (sink closed : Bool) (hist : List (Action × Fresh × Fault))
+    (hfresh : FaultyFreshOk hist) :
+    FaultyHistoryOk ⟨compOf e sink, (compOf e sink).perfOf (· + (compOf e sink).bound) closed⟩ hist :=
+  C04_binding_faulty _
+    (by simp only [Case.wf, wfPlain_compOf e sink,
+      wfPerf_perfOf closed (Comp.freshFor_bound _) (wfPlain_compOf e sink) (tailClean_compOf e sink), Bool.and_self])
+    hist hfresh
 
 end ForML.Persist
